@@ -243,6 +243,10 @@ class Policy:
 
             # No retry - single attempt
             return self._execute_without_retry(ctx, func, on_attempt_start, on_attempt_end)
+        except RetryExhaustedError as exc:
+            # Raised by the operation itself (nested policy): record it as call() does.
+            self._handle_exhausted_call(ctx, exc)
+            raise
         finally:
             ensure_settled(ctx)
 
